@@ -1463,11 +1463,15 @@ func (e *compiledFunctionLiteral) compile() (prg *Program, name unistring.String
 				}
 				if firstForwardRef == -1 {
 					s.bindings[i].emitGetAt(markGet)
+					s.bindings[i].emitInitP()
+					e.c.p.code[mark] = jdefP(len(e.c.p.code) - mark)
 				} else {
+					// The argument was not copied into the binding (it must stay in its TDZ while the earlier
+					// initialisers run), so a supplied value has to be stored as well.
 					e.c.p.code[markGet] = loadStackLex(-i - 1)
+					e.c.p.code[mark] = jdef(len(e.c.p.code) - mark)
+					s.bindings[i].emitInitP()
 				}
-				s.bindings[i].emitInitP()
-				e.c.p.code[mark] = jdefP(len(e.c.p.code) - mark)
 			} else {
 				if firstForwardRef == -1 && s.bindings[i].useCount() > 0 {
 					firstForwardRef = i
